@@ -23,8 +23,32 @@ CODECS = [None, "utf-8", "UTF-8", "utf8", "latin-1", "iso-8859-15", "cp1252", "k
 FORMS = ["# -*- coding: %s -*-", "# vim: set fileencoding=%s :", "# coding=%s"]
 # first physical line when the cookie is on line 2: characters that str.splitlines() treats as line
 # boundaries but Python (and bytes.split) do not must not hide the cookie
-FIRST = {1: "#!/usr/bin/env python", 2: "# \x0c page", 3: "# caf\x85", 4: "# fs\x1c", 5: "# ls\u2028"}
+FIRST = {1: "#!/usr/bin/env python", 2: "# \x0c page", 3: "# caf\x85", 4: "# fs\x1c", 5: "# ls\u2028",
+         6: "# " + "generated file - do not edit - " * 12}     # a first line of more than 300 characters
 NEWLINES = {"LF": "\n", "CRLF": "\r\n", "CR": "\r"}
+
+
+class OldStyleCommands:
+    """A file-system commands object of the older interface: no read() method (rope then opens the file itself)."""
+
+    def __init__(self):
+        from rope.base.fscommands import FileSystemCommands
+        self._fs = FileSystemCommands()
+
+    def create_file(self, path):
+        self._fs.create_file(path)
+
+    def create_folder(self, path):
+        self._fs.create_folder(path)
+
+    def move(self, path, new_location):
+        self._fs.move(path, new_location)
+
+    def remove(self, path):
+        self._fs.remove(path)
+
+    def write(self, path, data):
+        self._fs.write(path, data)
 
 
 def codec_of(c):
@@ -68,7 +92,7 @@ class C16(Check):
     level = "exploration"
     rule = ("cases = (lines<=n over 9 atoms incl. latin-1/euro/CJK/NBSP characters, tab-indented block, empty line, escaped \\r\\n "
             "literal, form feed) x newline {LF,CRLF,CR} x final newline {y,n} x encoding {none, utf-8 x3 spellings, latin-1, "
-            "iso-8859-15, cp1252, koi8-r, gbk, BOM} x 3 cookie forms x cookie on line 1 / on line 2 after a shebang or a comment containing FF, NEL(0x85), FS or U+2028, contents encodable; "
+            "iso-8859-15, cp1252, koi8-r, gbk, BOM} x 3 cookie forms x cookie on line 1 / on line 2 after a shebang, a comment containing FF, NEL(0x85), FS or U+2028, or a line of more than 300 characters; one-line texts also through a file-system commands object without read(); contents encodable; "
             "evaluations = per file: forced write-back, File.write replacing each editable line (+undo), Rename of one token "
             "(+undo), an edit after the newline convention was changed behind rope's back (+validate), a rewrite whose text declares another encoding (+undo), new-file write/read-back; non-trivial = evaluations on files with a non-LF newline convention, a non-UTF-8 "
             "codec, a BOM, no final newline or non-ASCII content; distinct by (file bytes, edit)")
@@ -88,6 +112,8 @@ class C16(Check):
                 for nl in NEWLINES:
                     for final in (True, False):
                         out.append({"lines": list(idx), "nl": nl, "final": final})
+                        if k == 1:
+                            out.append({"lines": list(idx), "nl": nl, "final": final, "oldfs": True})
         return out
 
     def setup_worker(self):
@@ -100,7 +126,7 @@ class C16(Check):
         nl, final = case["nl"], case["final"]
         for codec in CODECS:
             for form in range(len(FORMS)):
-                for pos in (0, 1, 2, 3, 4, 5):
+                for pos in (0, 1, 2, 3, 4, 5, 6):
                     if "only" in case and [codec, form, pos] != case["only"]:
                         continue
                     b = build(lines, nl, final, codec, form, pos)
@@ -136,7 +162,11 @@ class C16(Check):
                 res["nt"].append(h8([data.hex(), edit]))
             res["mech"][edit.split("#")[0]] = res["mech"].get(edit.split("#")[0], 0) + 1
 
-        p = Project(root, ropefolder=None)
+        if case.get("oldfs"):
+            p = Project(root, ropefolder=None, fscommands=OldStyleCommands())
+            basefeats.append("fscommands:without-read")
+        else:
+            p = Project(root, ropefolder=None)
         try:
             f = p.get_file("f.py")
             text = f.read()
